@@ -6,6 +6,7 @@ import (
 	"fmt"
 	"os"
 	"path/filepath"
+	"regexp"
 	"sort"
 	"strings"
 	"sync"
@@ -64,7 +65,7 @@ func propPackages(repo, prop string) ([]string, error) {
 		if err != nil {
 			return nil
 		}
-		if strings.Contains(string(data), "["+prop+".") || strings.Contains(string(data), "["+prop+"]") || (prop == "C10" && strings.Contains(string(data), "//@   deterministic")) {
+		if strings.Contains(string(data), "["+prop+".") || strings.Contains(string(data), "["+prop+"]") || (prop == "C10" && strings.Contains(string(data), "//@   deterministic\n")) || regexp.MustCompile(`//@   deterministic[^\n]* `+prop+`\b`).Match(data) {
 			rel, _ := filepath.Rel(repo, filepath.Dir(p))
 			pkgs = append(pkgs, "./"+rel)
 		}
@@ -384,7 +385,7 @@ func broken(o CheckOpts, why string) int {
 }
 
 func contractMentions(fc *FuncContract, prop string) bool {
-	if prop == "C10" && fc.Deterministic {
+	if fc.Deterministic && fc.DetProps[prop] {
 		return true
 	}
 	cs := append(append([]Clause{}, fc.Requires...), fc.Ensures...)
